@@ -30,7 +30,9 @@ DER = CheckFn("c15-derive", "Model.ReplaceCheck", "derive_check",
               imports=["Model.Replace"])
 START = CheckFn("c15-start", "Model.ReplaceCheck", "start_check", Tup(LabT, Nat, GraphT), imports=["Model.Replace"])
 ALIAS = CheckFn("c15-alias", "Model.ReplaceCheck", "alias_check", Tup(GraphT, Nat, EdgeT, OutT), imports=["Model.Replace"])
-CHECKFNS = [REPL, LIN, DER, START, ALIAS]
+BUILD = CheckFn("c15-build", "Model.ReplaceCheck", "build_check",
+                Tup(GraphT, GraphT, Nat, Tup(List(Nat), Nat), List(Tup(LabT, Nat))), imports=["Model.Replace"])
+CHECKFNS = [REPL, LIN, DER, START, ALIAS, BUILD]
 
 # regression case of the (fixed) finding c15_replacement_is_host; runs first in every run
 CORPUS_ALIAS = os.path.join(VERIF, "corpus", "C15-replacement-is-host.replay.json")
@@ -39,6 +41,7 @@ ASSUMPTIONS = [
     "implicit Node/Edge ids (object addresses) are modelled by a fresh-id counter: a newly created object's id differs from the id of every object still referenced (the harness keeps every graph alive while it is compared; a separate derive() run without any keep-alive is compared by position)",
     "both label tables of Graph are modelled: the edge-label table (name clash -> ValueError) and the node-label table (a NodeLabel is its name; the table is the list of names in insertion order)",
     "replace_edge(g, e, g) with the replacement aliasing the host: the code (since /repo 0be4bef) reads the replacement into lists before its first mutation, so the model is replace_edge_model with r := g (replace_edge_self_model); replace_edge_alias_model_old (live dict views of CPython, RuntimeError after the first insertion) is only the record of the fixed finding",
+    "a graph built through a copy / conversion path is observed through nodes(), edges(), ext, edge_labels(), node_labels(); its type is NEVER read from the implementation for the verdict: the model computes it from the external nodes (gtype), and the observed .type / .arity are an output judged by build_check; domains / factors of FactorGraph are not modelled (replace_edge does not read them)",
     "weights: the product theorem is proved for every commutative semiring; the run-time comparison uses non-negative integer weights (exact in float)",
 ]
 
@@ -580,6 +583,154 @@ def lookalike_hit(g):
     strs = [x.id for x in list(g.nodes()) + list(g.edges()) if isinstance(x.id, str)]
     return sum(1 for s in strs if s.isdigit() and int(s) in ints)
 
+
+# ----------------------------------------------------------------------------
+# construction / conversion / copy paths: the same fragment built through every way the library offers
+
+BASES = [("Graph", "after"), ("Graph", "before"), ("Graph", "between"), ("Graph", "twice"),
+         ("FactorGraph", "after"), ("FactorGraph", "before"), ("FactorGraph", "twice")]
+CONVS = [(), ("copy",), ("copy", "copy"), ("from_graph",), ("from_graph", "copy"), ("copy", "from_graph"),
+         ("from_graph", "from_graph"), ("rule_copy",), ("hrg_copy",), ("fgg_from_hrg",), ("fgg_from_hrg", "fgg_copy"),
+         ("from_graph", "fgg_from_hrg", "fgg_copy"), ("deepcopy",), ("from_graph", "deepcopy"),
+         ("from_graph", "ext_again"), ("copy", "ext_other_then_back"), ("from_graph", "copy", "ext_other_then_back"),
+         ("json",), ("from_graph", "json")]
+# conversions that keep the Node / Edge OBJECTS (a host edge stays addressable)
+KEEPS_OBJECTS = {"copy", "from_graph", "rule_copy", "hrg_copy", "fgg_from_hrg", "fgg_copy", "ext_again", "ext_other_then_back"}
+
+class PathRefused(Exception):
+    """a conversion step of the library raised on a well-formed fragment"""
+    def __init__(self, step, graph, exc):
+        Exception.__init__(self, "%s raised %r" % (step, exc)); self.step, self.graph, self.exc = step, graph, exc
+
+def other_ext(rng, g):
+    """some other tuple of nodes of g (another length / order / labels where possible)"""
+    ns = list(g.nodes()); cur = tuple(g.ext)
+    cands = [(), tuple(ns), tuple(reversed(cur)), cur[:-1], cur + tuple(ns[:1]), tuple(ns[-1:])]
+    cands = [c for c in cands if tuple(c) != cur] or [()]
+    return tuple(rng.choice(cands))
+
+def build_base(rng, cls, when, nls, els, r, idf):
+    """the rule's right-hand side as a `cls`, .ext assigned after / before / between the edges, or twice
+    (first to other nodes).  Node insertion order is the spec's except for the nodes .ext brings in first."""
+    import fggs
+    g = getattr(fggs, cls)()
+    nodes = [fggs.Node(nls[nl], id=idf("n", k)) for k, nl in enumerate(r["nodes"])]
+    edges = [fggs.Edge(els[el], [nodes[i] for i in att], id=idf("e", k)) for k, (el, att) in enumerate(r["edges"])]
+    ext = [nodes[i] for i in r["ext"]]
+    def add_nodes():
+        for n in nodes:
+            if not g.has_node_id(n.id): g.add_node(n)
+    if when == "before":
+        g.ext = ext; add_nodes()
+        for e in edges: g.add_edge(e)
+    elif when == "between":
+        add_nodes(); h = len(edges) // 2
+        for e in edges[:h]: g.add_edge(e)
+        g.ext = ext
+        for e in edges[h:]: g.add_edge(e)
+    else:
+        add_nodes()
+        if when == "twice": g.ext = other_ext(rng, g) if nodes else ()
+        for e in edges: g.add_edge(e)
+        g.ext = ext
+    return g, nodes, edges
+
+def convert(rng, g, step, lhs):
+    """one conversion step of the library; `lhs` = a nonterminal label of g's type (for the steps through rules)"""
+    import fggs, copy as _cp, json as _json
+    if step == "copy": return g.copy()
+    if step == "from_graph": return fggs.FactorGraph.from_graph(g)
+    if step == "deepcopy": return _cp.deepcopy(g)
+    if step == "ext_again":
+        g.ext = tuple(g.ext); return g
+    if step == "ext_other_then_back":
+        back = tuple(g.ext); g.ext = other_ext(rng, g); g.ext = back; return g
+    rule = fggs.HRGRule(lhs, g)
+    if step == "rule_copy": return rule.copy().rhs
+    if step == "fgg_copy":
+        f = fggs.FGG(lhs); f.add_rule(rule); return f.copy().all_rules()[0].rhs
+    h = fggs.HRG(lhs); h.add_rule(rule)
+    if step == "hrg_copy": return h.copy().all_rules()[0].rhs
+    if step == "fgg_from_hrg": return fggs.FGG.from_hrg(h).all_rules()[0].rhs
+    if step == "json": return fggs.json_to_hrg(_json.loads(_json.dumps(fggs.hrg_to_json(h)))).all_rules()[0].rhs
+    raise AssertionError(step)
+
+def build_through(rng, base, convs, nls, els, r, idf, lhs):
+    """-> (graph, nodes, edges, observations).  Every intermediate graph is observed: (graph before the step,
+    graph after it, comparison mode, step)."""
+    g, nodes, edges = build_base(rng, base[0], base[1], nls, els, r, idf)
+    obs = [(None, g, 0, "%s(ext %s)" % base)]
+    for step in convs:
+        mode = 0
+        if step == "json":
+            mode = 1 if all(isinstance(x.id, str) for x in list(g.nodes()) + list(g.edges())) else 2
+        try:
+            g2 = convert(rng, g, step, lhs)
+        except Exception as ex:
+            raise PathRefused(step, g, ex)
+        obs.append((g, g2, mode, step))
+        g = g2
+    return g, nodes, edges, obs
+
+def observe_build(ctx, src, out, mode, lhs_probe):
+    """wire case for build_check: src and out through nodes()/edges()/ext, out.type, out.arity, and HRGRule(l, out)
+    for the probe labels"""
+    import fggs
+    wsrc = ctx.graph(src if src is not None else out)
+    wout = ctx.graph(out)
+    ty = [ctx.nlab(l) for l in out.type]
+    rules = []
+    for l in lhs_probe:
+        try:
+            fggs.HRGRule(l, out); st = 0
+        except Exception:
+            st = 1
+        rules.append((ctx.lab(l), st))
+    return (wsrc, wout, mode, (ty, int(out.arity)), rules)
+
+def path_label(base, convs): return "%s(ext %s)" % base + "".join("." + c for c in convs)
+
+def path_cases(rng, n):
+    """single replace_edge calls in which the REPLACEMENT (every case) and the HOST (every other case) are built
+    through a construction / conversion / copy path.  Yields dicts."""
+    import fggs
+    out = []
+    combos = [(b, c) for c in CONVS for b in BASES]
+    rng.shuffle(combos)
+    # every conversion chain at least once on the plain base, then the shuffled product
+    combos = [(("Graph", "after"), c) for c in CONVS] + [(b, ()) for b in BASES] + combos
+    tries = 0
+    while len(out) < n and tries < 60 * n:
+        tries += 1
+        base, convs = combos[len(out) % len(combos)]
+        want = ["valid", "valid", "wrong_type", "valid", "wrong_type_nullary_edge", "wrong_type_nullary_repl"][len(out) % 6]
+        spec = random_single_spec(rng, "path")
+        typ = lambda x: spec["elabels"][x]["type"]
+        cands = [(ri, k, el) for ri, r in enumerate(spec["rules"]) for k, (el, att) in enumerate(r["edges"])
+                 if not spec["elabels"][el]["term"]]
+        if want == "wrong_type_nullary_edge": cands = [c for c in cands if not typ(c[2])]
+        elif want != "wrong_type_nullary_repl": cands = [c for c in cands if typ(c[2])] or cands
+        if not cands: continue
+        ri, k, el = rng.choice(cands)
+        if want == "valid": rjs = [rj for rj, r in enumerate(spec["rules"]) if r["lhs"] == el and len(set(r["ext"])) == len(r["ext"])]
+        elif want == "wrong_type_nullary_edge": rjs = [rj for rj, r in enumerate(spec["rules"]) if typ(r["lhs"])]
+        elif want == "wrong_type_nullary_repl": rjs = [rj for rj, r in enumerate(spec["rules"]) if not typ(r["lhs"]) and typ(el)]
+        else: rjs = [rj for rj, r in enumerate(spec["rules"]) if typ(r["lhs"]) != typ(el)]
+        if not rjs: continue
+        rj = rng.choice(rjs)
+        ids = rng.choice(["explicit", "implicit", "mixed"])
+        b = gen.build_hrg(spec, ids="explicit", rng=rng)     # only the label objects are used
+        def mk_idf(prefix):
+            return lambda kind_, k_: ("%s%s%d" % (prefix, kind_, k_)) if (ids == "explicit" or (ids == "mixed" and rng.random() < 0.5)) else None
+        hbase, hconvs = (("Graph", "after"), ())
+        if len(out) % 2 == 1:
+            hbase, hconvs = rng.choice([(bb, cc) for bb, cc in combos if all(c in KEEPS_OBJECTS for c in cc)])
+        desc = dict(spec=gen.spec_jsonable(spec), ids=ids, want=want, host_rule=ri, host_edge=k, repl_rule=rj,
+                    repl_path=path_label(base, convs), host_path=path_label(hbase, hconvs))
+        out.append(dict(desc=desc, spec=spec, b=b, ri=ri, k=k, rj=rj, base=base, convs=convs, hbase=hbase, hconvs=hconvs,
+                        idf_h=mk_idf("h"), idf_r=mk_idf("r"), want=want))
+    return out
+
 # ----------------------------------------------------------------------------
 # replace_edge(g, e, g)
 
@@ -664,6 +815,10 @@ DER_MSG = {1: "derive(): graph is not isomorphic to the derived graph (oracle sa
            3: "derive(): product of factor weights differs from the product of the rule-instance weights",
            4: "generated derivation tree is not well-formed (harness bug)", 10: "derive() differs from derive_model",
            11: "derive_model raises on a well-formed derivation"}
+BUILD_MSG = {1: "Graph.type / Graph.arity is not the tuple of labels / the number of the graph's external nodes (type computed by the model from .ext; C15_build_check_exact)",
+             2: "a copy / conversion changed the nodes, edges or external nodes of the graph (or replace_edge modified the replacement passed to it)",
+             3: "HRGRule(lhs, graph) refused a nonterminal left-hand side of the graph's type, or accepted one of another type / a terminal"}
+BUILD_ORACLE = {1: "type_obs_ok", 2: "content_eqb", 3: "rules_obs_ok"}
 ALIAS_PREFIX = "replace_edge(g, e, g) -- the host graph passed as its own replacement: "
 
 def run(tier, seed):
@@ -841,12 +996,83 @@ def _run(tier, seed):
         mal_hist[kind] = mal_hist.get(kind, 0) + 1
         key = kind + ":" + STATUS_NAME[status]
         mal_obs[key] = mal_obs.get(key, 0) + 1
+    # construction / conversion / copy paths
+    n_path = 190 if tier == "quick" else 2500
+    if os.environ.get("C15_PATHS"): n_path = int(os.environ["C15_PATHS"])      # mutation self-tests only
+    build_cases, build_meta, path_ctxs = [], [], []
+    path_hist, path_obs, step_hist = {}, {}, {}
+    def probes(b, spec, lhs):
+        ps = [lhs]
+        wrong = [l for l in b.els if l.is_nonterminal and l.type != lhs.type]
+        term = [l for l in b.els if l.is_terminal and l.type == lhs.type]
+        if wrong: ps.append(rng.choice(wrong))
+        if term: ps.append(rng.choice(term))
+        return ps
+    def observe_all(obs, b, spec, lhs, desc, side):
+        for src, dst, mode, step in obs:
+            c = Ctx(); path_ctxs.append(c)
+            try:
+                build_cases.append(observe_build(c, src, dst, mode, probes(b, spec, lhs)))
+                build_meta.append(dict(desc, side=side, step=step))
+                step_hist[step] = step_hist.get(step, 0) + 1
+            except Exception as ex:
+                violations.append(Violation("observing a graph built through %s raised %r" % (step, ex), case=dict(desc, side=side, step=step),
+                                            corr="corr:build", call="Graph.type / .arity / nodes() / edges() / ext", failing_input_found=False))
+    for pc in path_cases(rng, n_path):
+        spec, b, desc = pc["spec"], pc["b"], pc["desc"]
+        rh, rr = spec["rules"][pc["ri"]], spec["rules"][pc["rj"]]
+        lhs_h, lhs_r = b.els[rh["lhs"]], b.els[rr["lhs"]]
+        built = []
+        for side, base, convs, r, idf, lhs in (("host", pc["hbase"], pc["hconvs"], rh, pc["idf_h"], lhs_h),
+                                               ("replacement", pc["base"], pc["convs"], rr, pc["idf_r"], lhs_r)):
+            try:
+                g_, ns_, es_, obs = build_through(rng, base, convs, b.nls, b.els, r, idf, lhs)
+                observe_all(obs, b, spec, lhs, desc, side)
+                built.append((g_, ns_, es_))
+            except PathRefused as ex:
+                # the graph the step refused, with HRGRule probes: build_check says whether the refusal is wrong
+                c = Ctx(); path_ctxs.append(c)
+                try:
+                    build_cases.append(observe_build(c, None, ex.graph, 0, probes(b, spec, lhs)))
+                    build_meta.append(dict(desc, side=side, step="graph refused by " + ex.step, refused=repr(ex.exc)))
+                except Exception as ex2:
+                    violations.append(Violation("conversion step %s raised %r on a well-formed fragment (and observing it raised %r)" % (ex.step, ex.exc, ex2),
+                                                case=dict(desc, side=side), corr="corr:build", call=ex.step, failing_input_found=False))
+                break
+            except Exception as ex:
+                violations.append(Violation("building a fragment through %s raised %r" % (path_label(base, convs), ex), case=dict(desc, side=side),
+                                            corr="corr:build", call=path_label(base, convs), failing_input_found=False))
+                break
+        if len(built) < 2: continue
+        (host, hn, he), (repl, rn, re_) = built
+        ctx = Ctx()
+        try:
+            (nm, em, status), case = judged_replace(ctx, host, he[pc["k"]], repl)
+        except Exception as ex:
+            violations.append(Violation("harness could not run path case: %r" % (ex,), case=desc, corr="harness", failing_input_found=False))
+            continue
+        repl_cases.append((case, dict(desc, kind="path:" + pc["want"])))
+        # the replacement as passed is an input: it must be what it was (deep snapshot before / after)
+        try:
+            build_cases.append((case[3], ctx.graph(repl), 0, ([ctx.nlab(l) for l in repl.type], int(repl.arity)), []))
+            build_meta.append(dict(desc, side="replacement", step="replacement before / after replace_edge"))
+            path_ctxs.append(ctx)
+        except Exception as ex:
+            violations.append(Violation("observing the replacement after replace_edge raised %r" % (ex,), case=desc, corr="corr:build", failing_input_found=False))
+        key = pc["want"] + ":" + STATUS_NAME[status]
+        path_obs[key] = path_obs.get(key, 0) + 1
+        for kk in ("repl " + ("".join("." + c for c in pc["convs"]) or "(none)"), "repl base %s(ext %s)" % pc["base"],
+                   "host " + ("".join("." + c for c in pc["hconvs"]) or "(none)")):
+            path_hist[kk] = path_hist.get(kk, 0) + 1
     t_calls = _time.time()
-    acodes, k5 = run_model(ALIAS, alias_wire, seed=seed, tag="c15a", coq_sample=3)
-    rcodes, k1 = run_model(REPL, [c for c, _ in repl_cases], seed=seed, tag="c15r", coq_sample=8)
-    lcodes, k2 = run_model(LIN, lin_cases, seed=seed, tag="c15l", coq_sample=5)
-    dcodes, k3 = run_model(DER, der_cases, seed=seed, tag="c15d", coq_sample=5)
-    scodes, k4 = run_model(START, start_cases, seed=seed, tag="c15s", coq_sample=3)
+    # the six verdict functions are independent processes (extracted driver + a kernel re-evaluation each, in
+    # separate directories build/cases/<tag>): run them side by side; the results do not depend on the schedule
+    from concurrent.futures import ThreadPoolExecutor
+    jobs = [(ALIAS, alias_wire, "c15a", 3), (REPL, [c for c, _ in repl_cases], "c15r", 8), (LIN, lin_cases, "c15l", 5),
+            (DER, der_cases, "c15d", 5), (START, start_cases, "c15s", 3), (BUILD, build_cases, "c15b", 5)]
+    with ThreadPoolExecutor(max_workers=len(jobs)) as pool:
+        futs = [pool.submit(run_model, cf, vals, seed=seed, tag=tag, coq_sample=cs) for cf, vals, tag, cs in jobs]
+        (acodes, k5), (rcodes, k1), (lcodes, k2), (dcodes, k3), (scodes, k4), (bcodes, k6) = [f.result() for f in futs]
     t_model = _time.time()
     exact = [0, 0]
     for c, m, code in zip(start_cases, start_meta, scodes):
@@ -872,6 +1098,16 @@ def _run(tier, seed):
         violations.append(Violation(DER_MSG.get(code, "code %d" % code), case=m, observed=c[2],
                                     oracle={1: "same_upto_naming", 2: "total assignment", 5: "assignment only on nodes", 3: "weight product", 12: "derived assignment"}.get(code),
                                     failing_input_found=code in (1, 2, 3, 5, 12), corr="C15_derive / C15_derive_assignment_exact / corr:derive", call="FGGDerivation.derive()"))
+    for c, m, code in zip(build_cases, build_meta, bcodes):
+        if code == 0:
+            if m.get("refused"):
+                violations.append(Violation("a conversion step raised on a well-formed fragment: %s (%s)" % (m["step"], m["refused"]), case=m, observed=c[1],
+                                            corr="corr:build", call=m["step"], failing_input_found=False))
+            continue
+        violations.append(Violation(BUILD_MSG.get(code, "code %d" % code) + " [step: %s]" % m["step"].split(" refused by ")[-1],
+                                    case=dict(m, wire=c[:3]), observed=c[3:], oracle=BUILD_ORACLE.get(code), failing_input_found=code in (1, 2, 3),
+                                    corr="C15_build_check_exact / C15_replace_only_reads_content / corr:build",
+                                    call="Graph / Graph.copy / FactorGraph / FactorGraph.from_graph / FactorGraph.copy / HRGRule.copy / HRG.copy / FGG.from_hrg / FGG.copy / json / deepcopy, then .type, .arity, HRGRule(lhs, graph)"))
     alias_codes = {}
     for c, m, code in zip(alias_wire, alias_meta, acodes):
         alias_codes[code] = alias_codes.get(code, 0) + 1
@@ -887,7 +1123,7 @@ def _run(tier, seed):
                       nodes_or_edges_of_final_graphs_with_a_reused_address=addr_reuse_objects,
                       single_calls_with_address_like_explicit_ids=look_cases, of_which_an_explicit_id_spells_a_fresh_id_of_the_result=look_hits)
     print("C15 shapes: " + ", ".join("%s=%s" % kv for kv in sorted(shape_hist.items())))
-    cov = dict(evaluations=len(repl_cases) + len(lin_cases) + len(der_cases) + len(start_cases) + len(alias_wire),
+    cov = dict(evaluations=len(repl_cases) + len(lin_cases) + len(der_cases) + len(start_cases) + len(alias_wire) + len(build_cases),
                distinct_nontrivial=len({s for s in shapes if len(s[1][1]) >= 1}),
                rule="a fixed grammar with every forced shape (first trees) then random HRGs (gen.random_spec, mostly recursive so rules are reused; explicit/implicit/mixed ids; "
                     "node insertion order permuted against .ext, extra isolated internal nodes, edges attached twice to a node) and random derivation trees with 1..7 rule instances "
@@ -897,14 +1133,23 @@ def _run(tier, seed):
                     "against derived_graph; derive() likewise plus assignment (total, nothing else, values) and integer weight product, once with and once without keeping objects alive. "
                     "distinct_nontrivial = distinct (grammar rules, tree shape) pairs with >= 2 rule instances. "
                     "Aliasing stream (first): replace_edge(g, e, g), the recorded failing input of the fixed finding first. Single-call stream: wrong type, absent edge, both, repeated external node, label-name clash, attachment node not in nodes(), edge with a stolen id, valid calls on hosts "
-                    "with external nodes, hosts whose explicit ids are the decimal strings of just-freed addresses.",
+                    "with external nodes, hosts whose explicit ids are the decimal strings of just-freed addresses. "
+                    "Path stream: single replace_edge calls whose REPLACEMENT (always) and HOST (every other case) are built through the library's construction / "
+                    "conversion / copy paths: Graph or FactorGraph with .ext assigned before / between / after the edges or twice (other nodes first), then a chain of "
+                    "Graph.copy / FactorGraph.copy, FactorGraph.from_graph, HRGRule.copy, HRG.copy, FGG.from_hrg, FGG.copy, copy.deepcopy, JSON round trip, .ext "
+                    "re-assigned (same value; other value then back) -- 19 chains x 7 bases; right type / wrong type / nullary edge with non-nullary replacement / "
+                    "non-nullary edge with nullary replacement. Every call is judged by replace_check (type = labels of the wire's external nodes); every intermediate "
+                    "graph is observed (.type, .arity, HRGRule(lhs, g) for a right, a wrong and a terminal lhs, content before/after the step, the replacement "
+                    "before/after replace_edge) and judged by build_check (C15_build_check_exact).",
                samples=samples, trees=made, trees_with_reused_rule=reused, trees_all_linearisations=n_exh, trees_sampled_linearisations=n_samp,
                replace_calls=len(repl_cases), linearisations=len(lin_cases), derive_calls=len(der_cases),
                tree_size_histogram=hist_size, linearisations_per_tree_histogram=hist_lin, grammar_features=feats,
                shape_distribution=shape_hist,
                malformed_histogram=mal_hist, malformed_observed=mal_obs, exact_agreement="%d/%d" % tuple(exact),
                alias_calls=len(alias_wire), alias_observed=alias_obs, alias_verdicts={str(k): v for k, v in alias_codes.items()},
-               kernel_reevaluated=k1 + k2 + k3 + k4 + k5, start_graph_calls=len(start_cases),
+               kernel_reevaluated=k1 + k2 + k3 + k4 + k5 + k6,
+               path_calls=sum(path_obs.values()), path_observed=path_obs, path_histogram=path_hist, build_observations=len(build_cases),
+               build_steps_histogram=step_hist, start_graph_calls=len(start_cases),
                phase_seconds=dict(aliased_calls_and_trees_with_implementation=round(t_trees - t_start, 1), single_calls=round(t_calls - t_trees, 1),
                                   model_and_oracles=round(t_model - t_calls, 1)),
                open_items=OPEN_ITEMS)
@@ -932,7 +1177,7 @@ def replay(path):
 
 MANIFEST = dict(
     level="proof",
-    text="Coq theorems about a Gallina model that follows fggs.replace_edge / start_graph / FGGDerivation.derive statement by statement (both label tables included): replacement specification and well-formedness preservation (C15_replace_spec), the executable oracles are EXACT deciders of the specifications (C15_replace_ok_exact, C15_same_upto_naming_exact, C15_start_ok_exact), confluence over every linearisation by an invariant (C15_confluence), derive() = the derived graph with an assignment defined exactly on its nodes that is the denotational one, a function of the node name (C15_derive_assignment_exact, C15_derived_asst_nodup), and the weight product in any commutative semiring (C15_derive); node-label table tight along every run (C15_run_node_labels); the aliased call replace_edge(g, e, g) meets the same specification since /repo 0be4bef (C15_replace_self_spec; the old behaviour is kept as replace_edge_alias_model_old with C15_replace_alias_old_never_spec / _refuted, and its failing input is a regression case run first). The model is tied to /repo by running every linearisation (<= 120 per tree) with the implementation and judging each call and each final graph with the extracted verified oracles.",
+    text="Coq theorems about a Gallina model that follows fggs.replace_edge / start_graph / FGGDerivation.derive statement by statement (both label tables included): replacement specification and well-formedness preservation (C15_replace_spec), the executable oracles are EXACT deciders of the specifications (C15_replace_ok_exact, C15_same_upto_naming_exact, C15_start_ok_exact), confluence over every linearisation by an invariant (C15_confluence), derive() = the derived graph with an assignment defined exactly on its nodes that is the denotational one, a function of the node name (C15_derive_assignment_exact, C15_derived_asst_nodup), and the weight product in any commutative semiring (C15_derive); node-label table tight along every run (C15_run_node_labels); the aliased call replace_edge(g, e, g) meets the same specification since /repo 0be4bef (C15_replace_self_spec; the old behaviour is kept as replace_edge_alias_model_old with C15_replace_alias_old_never_spec / _refuted, and its failing input is a regression case run first). Replacement and host graphs are also built through every construction / conversion / copy path of the library (Graph.copy, FactorGraph.from_graph, FactorGraph.copy, rule and grammar copies, FGG.from_hrg, JSON, deepcopy, .ext assigned in any order or twice): the model reads a replacement only through nodes(), edges(), ext (C15_replace_only_reads_content, C15_replace_same_content), a wrong type -- the labels of the external nodes -- is rejected whatever the replacement (C15_replace_wrong_type_rejected), and the observation oracle for .type / .arity / HRGRule(lhs, g) is exact (C15_build_check_exact, C15_build_check_type_rejects, C15_rules_obs_ok_exact). The model is tied to /repo by running every linearisation (<= 120 per tree) with the implementation and judging each call and each final graph with the extracted verified oracles.",
     note="Trusted: Coq kernel + vm_compute, extraction cross-checked against vm_compute, the Python harness that numbers ids/labels and names nodes through the maps replace_edge returns.",
     technique="Coq proof (model + theorems) + model/implementation correspondence with verified-spec oracles (sound and complete)",
     design_ref="DESIGN.md section 6, C15")
